@@ -159,8 +159,22 @@ func (E *Engine) proveLemma(m *SpecModule, l *Lemma) *LemmaResult {
 			defer func() { <-sem }()
 			ob := &ObResult{Name: name, Func: "lemma", Subs: 1, BySolver: map[string]int{}}
 			var notes []string
+			// two rounds: every solver with a short limit first (most lemma cases take milliseconds on at least one
+			// of them), then every solver with the full limit
+			type attempt struct {
+				s   solverSpec
+				tmo int
+			}
+			var plan []attempt
 			for _, s := range solvers {
-				r, raw := runSolver(s, E.TimeoutR, script, 1, E.WorkDir, sanitize(name)+"."+s.name)
+				plan = append(plan, attempt{s, 2500})
+			}
+			for _, s := range solvers {
+				plan = append(plan, attempt{s, E.TimeoutR})
+			}
+			for _, at := range plan {
+				s := at.s
+				r, raw := runSolver(s, at.tmo, script, 1, E.WorkDir, sanitize(name)+"."+s.name)
 				st := "unknown"
 				if r != nil && r[0] != "" {
 					st = r[0]
